@@ -7,6 +7,7 @@ from .. import core, symbols
 from ..translate import genutils as tr_genutils
 from ..translate import wiring as tr_wiring
 from ..translate import buildnl as tr_buildnl
+from ..translate import nonlin as tr_nonlin
 
 ID = "C13"
 PROPS_FILE = "C13"
@@ -29,7 +30,7 @@ def translate(ctx):
     constructors, theorem C13_code_constructor_wiring), Gen/BuildNL.v (`_build_nonlinear_fun` of every stepper class, theorem
     C13_code_nonlinear_wiring); all are always attempted"""
     errors = []
-    for name, tr in (("genutils", tr_genutils), ("wiring", tr_wiring), ("buildnl", tr_buildnl)):
+    for name, tr in (("genutils", tr_genutils), ("wiring", tr_wiring), ("buildnl", tr_buildnl), ("nonlin", tr_nonlin)):
         try:
             tr.run()
         except Exception as e:
